@@ -1,6 +1,7 @@
 /- Line-protocol driver. Input lines: `<op> <args…> => <implementation output>`; first line `cfg …`.
    Output per line: `ok [tags]` or `FAIL [M][S] model=<…> spec=<…> got=<…>`. -/
 import Driver.C01
+import Driver.C15
 
 open Driver Relic.Model
 
@@ -21,9 +22,9 @@ def parseCfg (toks : List String) : Conf :=
       | _, _ => { c with extra := (k, v) :: c.extra }
     | _ => c) {}
 
-def dispatch (c : Conf) (op : String) (args : List String) (_got : String) : Option Verdict :=
+def dispatch (c : Conf) (op : String) (args : List String) (got : String) : Option Verdict :=
   let e01 : C01.Env := { cfg := { w := c.w, cap := c.size }, digs := c.digs }
-  C01.handle e01 op args
+  (C01.handle e01 op args) <|> (C15.handle c.w c.size op args got)
 
 def processLine (c : Conf) (line : String) : String :=
   match line.splitOn " => " with
